@@ -291,7 +291,7 @@ def k_read(sim, sock, n, timeout=None, what='read'):
                 raise TimeoutError('timed out')
 
 
-def k_write(sim, sock, data, what='write'):
+def k_write(sim, sock, data, what='write', partial=False):
     """blocking write of all of data; returns len(data).  Like send(2) on a blocking stream socket, errors are
     checked when the call starts and whenever it has to wait for buffer space - not between the bytes of one
     accepted chunk.  Segmentation only affects how the accepted bytes become visible to the reader."""
@@ -339,7 +339,15 @@ def k_write(sim, sock, data, what='write'):
             # a blocking send / write of one buffer is a single C call: no asynchronous exception is delivered
             # before it completes (only a kill can cut a message short)
             sim.probe('write-blocked-full')
+            nsig = t.nsig
             sim.block(t, (tx.wq,), what=f'{what}-full:{sock.label}', deliver=False)
+            if partial and off > 0 and t.nsig != nsig:
+                # send(2) interrupted by a handled signal after some bytes were queued: the short count is returned
+                # (sendall / write of a Connection retry; a bare socket.send() does not)
+                sim.fault('short-send-on-signal')
+                sim.ev('short-send', t.name, sock.label, off, total)
+                sim.sys_return_point(t)
+                return off
             check = True
             continue
         end = off + min(free, total - off)
